@@ -9,7 +9,10 @@ RULE = ('random ragged arrays (1..6 rows, lengths 1..6, 30% equal-length, 1-D an
         'a case is non-trivial when the expected result is a non-empty value; distinct by canonical (array, op, index)')
 ASSUMPTIONS = ['numpy basic/fancy indexing of 1-D arrays and Python list indexing are the reference semantics of the '
                'list-of-rows oracle (Model.PySlice is tied to CPython slice.indices exhaustively each run)',
-               'cells are atomic: the model is parametric in the cell type, cell ids stand for cell values']
+               'cells are atomic: the model is parametric in the cell type, cell ids stand for cell values',
+               'Model.Ragged has two variants of the 2-D index arithmetic (tree as found / with the proposed repair); seven '
+               'probe reads announce which one the staged code is compared with, every case then checks that announcement']
+TRUSTED_EXTRA = ['the Python list-of-rows oracle in harness/props/c05.py (about 60 lines, numpy indexing of 1-D arrays only)']
 
 STEPS = [None, 1, 2, 3, -1, -2, -3]
 CTORS = ['nested-list', 'nested-array', 'flat-lengths-list', 'flat-lengths-array']
@@ -188,38 +191,6 @@ def canon_impl(kind, res, cellshape):
     return 'ok', a.tolist()
 
 
-def run_impl(arr, op, idx):
-    """-> {'ok': canonical} | {'error': kind} | {'bad': why}; builds a fresh array each time"""
-    from enspara import ra
-    rows, _ = build_rows(arr)
-    cellshape = tuple(rows[0].shape[1:])
-    a = build_ra(arr)
-    snap = (a._data.tobytes(), a.lengths.tobytes())
-    try:
-        if op == 'iter':
-            res = ('ok', [np.asarray(x).tolist() for x in a])
-        elif op == 'flatten':
-            res = ('ok', np.asarray(a.flatten()).tolist())
-        elif op == 'attrs':
-            sh = a.shape
-            res = ('ok', {'lengths': [int(x) for x in a.lengths], 'starts': [int(x) for x in a.starts],
-                          'shape': [None if x is None else int(x) for x in sh], 'size': int(a.size),
-                          'dtype': str(a.dtype), 'len': len(a)})
-        elif op == 'where':
-            w = ra.where(build_mask(arr, idx['v']))
-            res = ('ok', [[int(x) for x in w[0]], [int(x) for x in w[1]]]) if len(w) == 2 else ('bad', 'where returned %d arrays' % len(w))
-        else:
-            mask = build_mask(arr, idx['v']) if idx['t'] == 'mask' else None
-            kind = expected_kind(idx)
-            out = a[py_index(idx, mask)]
-            res = canon_impl(kind, out, cellshape)
-    except Exception as e:  # noqa
-        return {'error': err_kind(e), 'exc': type(e).__name__}
-    if (a._data.tobytes(), a.lengths.tobytes()) != snap:
-        return {'bad': 'the read modified the array'}
-    return {res[0]: res[1]}
-
-
 def expected_kind(idx):
     t = idx['t']
     if t == 'int':
@@ -235,14 +206,6 @@ def expected_kind(idx):
         return 'rows'
     return 'arr'
 
-
-def run_oracle(arr, op, idx):
-    rows, _ = build_rows(arr)
-    try:
-        kind, val = oracle(rows, op, idx)
-    except IndexError:
-        return {'error': 'index-error'}
-    return {'ok': canon_expected(kind, val)}
 
 
 # ----------------------------------------------------------------------------------------------
@@ -505,8 +468,34 @@ def strip(idx):
     return {k: v for k, v in idx.items() if k != 'np'}
 
 
+VARIANT = {'fixed': None}
+
+
+def detect_variant(ctx):
+    """Model.Ragged has two variants of the index arithmetic: the tree as found (hand arithmetic in
+    _slice_to_list/_get_iis_from_slices, empty selections fail) and the repaired one (slice.indices, empty
+    selections are built).  A handful of reads the two variants answer differently announce which one the
+    staged code is compared with; the announcement is then checked on every case like any other output."""
+    a = {'lengths': [3, 2], 'width': 0, 'dtype': 'int', 'ctor': 'flat-lengths-array'}
+    full = S([None, None, None])
+    probes = [T(full, S([-1, None, None])), T(S([None, None, -1]), full), T(S([0, 5, None]), I(0)),
+              T(S([0, 0, None]), full), T(full, S([2, None, None])), T(I(0), Lst([])),
+              {'t': 'mask', 'v': [[False] * 3, [False] * 2]}]
+    impl = Impl(a)
+    good = 0
+    for idx in probes:
+        o = run_oracle_rows(impl.rows, 'get', idx)
+        i = impl.run('get', idx)
+        good += int('ok' in i and i['ok'] == o.get('ok'))
+    fixed = good == len(probes)
+    VARIANT['fixed'] = fixed
+    ctx.note('code_variant', {'announced': 'repaired' if fixed else 'as-found',
+                              'probes_like_list_of_rows': good, 'probes': len(probes)})
+    ctx.tag('variant=' + ('repaired' if fixed else 'as-found'))
+
+
 def model_request(arr, op, idx):
-    return {'op': 'C05.' + op, 'lengths': arr['lengths'], 'fast': is_fast(arr),
+    return {'op': 'C05.' + op, 'lengths': arr['lengths'], 'fast': is_fast(arr), 'fixed': bool(VARIANT['fixed']),
             'ctor': 'rows' if arr['ctor'].startswith('nested') else 'flat', 'idx': strip(idx)}
 
 
@@ -672,7 +661,7 @@ def judge(ctx, impl, op, idx, mresp, record=True):
         ctx.violation(what[:600], dict(case, got=i, expected=o), key=keys[0] if keys else None)
     # correspondence with the model (cells are atomic in the model: skip the multi-dimensional
     # rectangular fast path, where numpy's reshape cuts cells apart)
-    if K_RECT in keys:
+    if K_RECT in keys and not holds:
         ctx.skip('model comparison skipped: ' + K_RECT)
         return
     m = model_canon(arr, op, idx, mresp, impl.flat)
@@ -719,6 +708,7 @@ FIXED_OPS = [('iter', None), ('flatten', None), ('attrs', None)]
 
 def run(ctx):
     rng = ctx.rng
+    detect_variant(ctx)
     slice_scope(ctx)
     # random arrays x random index expressions
     batch = []
@@ -767,5 +757,7 @@ def replay(ctx, data):
             ctx.disagreement('Model.PySlice.indices vs CPython slice.indices', data)
         return
     arr, op, idx = data['arr'], data['op'], data.get('idx')
+    if VARIANT['fixed'] is None:
+        detect_variant(ctx)
     resp = ctx.driver([model_request(arr, op, idx)])[0]
     judge(ctx, Impl(arr), op, idx, resp)
